@@ -707,9 +707,9 @@ func runTraceConcurrent(k *vf.Case) {
 	var mu sync.Mutex
 	var panics []string
 	type churnRec struct {
-		p                  *recSP
-		regRet, unregCall  uint64
-		spansDuring        []trace.SpanID
+		p                 *recSP
+		regRet, unregCall uint64
+		spansDuring       []trace.SpanID
 	}
 	var churns []*churnRec
 	type spanRec struct {
